@@ -370,3 +370,109 @@ Proof. destruct o; cbn [answer]; try (split; reflexivity).
 Theorem annotate_agrees_l ops : forall s, mrun (annotate ops s) s = true.
 Proof. induction ops as [|o r IH]; intros s; [reflexivity|]. cbn [annotate mrun].
   destruct (mstep_answer o s) as [E1 E2]. destruct (mstep (answer o s) s) as [s' ok]. cbn [fst snd] in *. subst. cbn [andb]. apply IH. Qed.
+
+(* ---------- (2) soundness: what a code that is not produced guarantees ---------- *)
+Lemma codes_in_walk pre o post c :
+  In c (codes_at o (rev pre) (time_at pre) (peerset_at pre) (phi_at pre)) -> In c (spec_walk (pre ++ o :: post) [] 0 PNone []).
+Proof. intros H. apply spec_walk_at. now rewrite app_nil_r. Qed.
+
+Lemma adds_of_app a b : adds_of (a ++ b) = adds_of a ++ adds_of b.
+Proof. unfold adds_of. apply flat_map_app. Qed.
+Lemma adds_of_rev l : adds_of (rev l) = rev (adds_of l).
+Proof. induction l as [|o r IH]; [reflexivity|]. cbn [rev]. rewrite adds_of_app, IH, (adds_of_cons o r), rev_app_distr.
+  f_equal. destruct o; reflexivity. Qed.
+Lemma uniq_ids_prefix pre rest : uniq_ids (pre ++ rest) -> uniq_ids (rev pre).
+Proof. unfold uniq_ids. rewrite adds_of_app, adds_of_rev, map_app, map_rev. intros H. apply NoDup_rev.
+  induction (map mid (adds_of pre)) as [|x xs IH]; [constructor|]. simpl in H. inversion H as [|? ? Hn Hd]; subst.
+  constructor; auto. intros Hin. apply Hn. apply in_or_app. now left. Qed.
+
+(* code 2 *)
+Lemma latest_okb_sound now ps past name obs : uniq_ids past ->
+  latest_okb now ps past name obs = true -> latest_spec now ps past name obs.
+Proof. intros Hu H. unfold latest_okb in H. apply andb_true_iff in H. destruct H as [Hall Hnd].
+  assert (Hms : exists ms, map (fun id => find_add id past) obs = map Some ms /\ map mid ms = obs).
+  { clear Hnd. induction obs as [|id r IH]; [exists []; split; reflexivity|].
+    cbn [map forallb] in Hall. apply andb_true_iff in Hall. destruct Hall as [H1 H2].
+    destruct (find_add id past) as [m|] eqn:F; [|discriminate]. destruct (IH H2) as [ms [E1 E2]].
+    exists (m :: ms). cbn [map]. rewrite F, E1, E2. apply find_add_in in F. destruct F as [_ ->]. split; reflexivity. }
+  destruct Hms as [ms [E1 E2]]. rewrite E1 in Hall, Hnd. rewrite flat_map_some_peers in Hnd.
+  exists ms. split; auto. split; [now apply nodupb_NoDup|]. intros m Hm.
+  rewrite forallb_forall in Hall. specialize (Hall (Some m) (in_map Some ms m Hm)). cbn beta iota in Hall.
+  rewrite !andb_true_iff in Hall. destruct Hall as [[[[H1 H2] H3] H4] H5].
+  assert (Hin : In m (adds_of past)).
+  { assert (In (Some m) (map (fun id => find_add id past) obs)) as Hs by (rewrite E1; now apply in_map).
+    apply in_map_iff in Hs. destruct Hs as [id [F _]]. now apply find_add_in in F. }
+  destruct (last_add (mkey m) past) as [m'|] eqn:LA; [|discriminate]. apply N.eqb_eq in H4.
+  assert (m' = m) by (eapply uniq_ids_inj; eauto; eapply last_add_in; eauto). subst m'.
+  split; [|split; [now apply N.eqb_eq|split; [exact H2|split]]].
+  - destruct (last_add_split _ _ _ LA) as [nw [ol [E F]]]. exists nw, ol. auto.
+  - apply negb_true_iff in H3. unfold expired in H3. now apply Z.ltb_ge.
+  - unfold member. destruct ps; auto; [discriminate|now apply memN_in]. Qed.
+
+Theorem latest_monitor_sound_l ops : uniq_ids ops -> ~ In 2%N (spec_walk ops [] 0 PNone []) ->
+  forall pre name obs post, ops = pre ++ OLatest name obs :: post ->
+  latest_spec (time_at pre) (peerset_at pre) (rev pre) name obs.
+Proof. intros Hu Hno pre name obs post ->. apply latest_okb_sound; [eapply uniq_ids_prefix; eauto|].
+  destruct (latest_okb (time_at pre) (peerset_at pre) (rev pre) name obs) eqn:E; auto.
+  exfalso. apply Hno. apply codes_in_walk. cbn [codes_at]. rewrite E. now left. Qed.
+
+(* code 10 *)
+Theorem alerts_fresh_monitor_sound_l ops : ~ In 10%N (spec_walk ops [] 0 PNone []) ->
+  forall pre o obs post, ops = pre ++ o :: post -> obs_of_check o = Some obs ->
+  forall a, In a obs -> exists m, most_recent_add (rev pre) m /\ mkey m = fst a /\ mexp m < time_at pre.
+Proof. intros Hno pre o obs post -> Ho a Ha.
+  assert (H : alerts_fresh_okb (time_at pre) (rev pre) obs = true).
+  { destruct (alerts_fresh_okb (time_at pre) (rev pre) obs) eqn:E; auto. exfalso. apply Hno. apply codes_in_walk.
+    destruct o; try discriminate; cbn [obs_of_check] in Ho; injection Ho as ->; cbn [codes_at]; rewrite E; apply in_or_app; left; now left. }
+  unfold alerts_fresh_okb in H. rewrite forallb_forall in H. specialize (H a Ha).
+  destruct (last_add (fst a) (rev pre)) as [m|] eqn:LA; [|discriminate]. exists m.
+  pose proof (last_add_key _ _ _ LA) as Ek. split; [|split; auto].
+  - destruct (last_add_split _ _ _ LA) as [nw [ol [E F]]]. exists nw, ol. rewrite Ek. auto.
+  - unfold expired in H. now apply Z.ltb_lt. Qed.
+
+(* code 11: between two adds for (name, peer) the checks report at most one alert for it *)
+Lemma alerts_for_pos k obs : (1 <= alerts_for k obs)%nat -> exists a, In a obs /\ fst a = k.
+Proof. unfold alerts_for. destruct (filter (fun a => key_eqb (fst a) k) obs) as [|a r] eqn:F; simpl; [lia|]. intros _.
+  assert (In a (filter (fun a => key_eqb (fst a) k) obs)) as Hin by (rewrite F; now left).
+  apply filter_In in Hin. destruct Hin as [Hin E]. exists a. split; auto. now destruct (key_eqb_spec (fst a) k). Qed.
+
+Theorem alerts_once_monitor_sound_l ops : ~ In 11%N (spec_walk ops [] 0 PNone []) ->
+  forall k pre seg post, ops = pre ++ seg ++ post -> forallb (fun o => negb (adds_to k o)) seg = true ->
+  (alerts_in k seg <= 1)%nat.
+Proof. intros Hno k pre seg. induction seg as [|o seg' IH] using rev_ind; intros post E Hna; [simpl; lia|].
+  rewrite forallb_app in Hna. apply andb_true_iff in Hna. destruct Hna as [Hna' Hno'].
+  assert (E' : ops = pre ++ seg' ++ o :: post) by (rewrite E, <- !app_assoc; reflexivity).
+  specialize (IH (o :: post) E' Hna'). rewrite alerts_in_app. cbn [alerts_in fold_right].
+  destruct (obs_of_check o) as [obs|] eqn:Ho; [|lia].
+  destruct (Nat.le_gt_cases 1 (alerts_for k obs)) as [Hpos|Hz]; [|lia].
+  destruct (alerts_for_pos k obs Hpos) as [a [Ha Ek]].
+  assert (H : alerts_once_okb (o :: rev (pre ++ seg')) obs = true).
+  { destruct (alerts_once_okb (o :: rev (pre ++ seg')) obs) eqn:X; auto. exfalso. apply Hno.
+    rewrite E', app_assoc. apply codes_in_walk.
+    destruct o; try discriminate; cbn [obs_of_check] in Ho; injection Ho as ->; cbn [codes_at]; rewrite X;
+      apply in_or_app; right; try (apply in_or_app; left); now left. }
+  unfold alerts_once_okb in H. rewrite forallb_forall in H. specialize (H a Ha). apply Nat.leb_le in H. rewrite Ek in H.
+  assert (Eq : o :: rev (pre ++ seg') = rev (seg' ++ [o]) ++ rev pre).
+  { rewrite rev_app_distr. cbn [rev app]. now rewrite rev_app_distr. }
+  rewrite Eq, alerts_since_add_app, alerts_in_rev, alerts_in_app in H.
+  - cbn [alerts_in fold_right] in H. rewrite Ho in H. lia.
+  - apply forallb_forall. intros x Hx. apply in_rev in Hx. apply in_app_or in Hx. destruct Hx as [Hx|[<-|[]]].
+    + rewrite forallb_forall in Hna'. auto.
+    + cbn [forallb] in Hno'. now rewrite andb_true_r in Hno'. Qed.
+
+(* code 13: an expiry seen by CheckPeers is reported *)
+Theorem reported_monitor_sound_l ops : ~ In 13%N (spec_walk ops [] 0 PNone []) ->
+  forall pre peers obs post, ops = pre ++ OCheckPeers peers obs :: post ->
+  forall n p m, In n (names_added (rev pre)) -> In p peers -> last_add (n, p) (rev pre) = Some m -> mexp m < time_at pre ->
+    removed_since_add (n, p) (rev pre) = false -> alerts_since_add (n, p) (rev pre) = 0%nat ->
+    ((count_adds (n, p) (rev pre) < 6)%nat \/ phi_of (phi_at pre) (n, p) = true) ->
+    (1 <= alerts_for (n, p) obs)%nat.
+Proof. intros Hno pre peers obs post -> n p m Hn Hp LA X Hr Ha Hc.
+  assert (H : reported_okb (time_at pre) (phi_at pre) (rev pre) peers obs = true).
+  { destruct (reported_okb (time_at pre) (phi_at pre) (rev pre) peers obs) eqn:E; auto. exfalso. apply Hno. apply codes_in_walk.
+    cbn [codes_at]. rewrite E. apply in_or_app; right; apply in_or_app; right; now left. }
+  unfold reported_okb in H. rewrite forallb_forall in H. specialize (H n Hn). rewrite forallb_forall in H. specialize (H p Hp).
+  cbv zeta in H. rewrite LA, Hr, Ha in H. unfold expired in H. apply Z.ltb_lt in X. rewrite X in H. cbn [negb andb Nat.eqb] in H.
+  assert (Hc' : ((count_adds (n, p) (rev pre) <? 6)%nat || phi_of (phi_at pre) (n, p)) = true).
+  { apply orb_true_iff. destruct Hc as [Hc|Hc]; [left; now apply Nat.ltb_lt | now right]. }
+  rewrite Hc' in H. now apply Nat.leb_le. Qed.
